@@ -471,3 +471,27 @@ func resolveLocal(info *types.Info, body ast.Node, e ast.Expr) ast.Expr {
 	}
 	return e
 }
+
+// lenFact classifies a fact about the length of an expression accepted by isX: ok when the fact decides whether
+// len(x) is zero; nonEmpty tells which. Covers == 0, != 0, > 0, >= 1, < 1, <= 0 in both polarities.
+func lenFact(info *types.Info, fc eng.Fact, isX func(ast.Expr) bool) (nonEmpty bool, ok bool) {
+	if fc.Y != nil {
+		return false, false
+	}
+	b, isB := ast.Unparen(fc.X).(*ast.BinaryExpr)
+	if !isB {
+		return false, false
+	}
+	cl := builtinCall(info, b.X, "len")
+	k, isK := eng.ConstInt(info, b.Y)
+	if cl == nil || len(cl.Args) != 1 || !isX(cl.Args[0]) || !isK {
+		return false, false
+	}
+	switch {
+	case b.Op == token.GTR && k == 0, b.Op == token.NEQ && k == 0, b.Op == token.GEQ && k == 1:
+		return fc.Pos, true
+	case b.Op == token.EQL && k == 0, b.Op == token.LEQ && k == 0, b.Op == token.LSS && k == 1:
+		return !fc.Pos, true
+	}
+	return false, false
+}
